@@ -42,7 +42,16 @@ func Scope(
 	internalDataModel *schema.ScopeSchema,
 	functions map[string]schema.Function,
 	workflowContext map[string][]byte,
-) (schema.Scope, error) {
+) (result schema.Scope, err error) {
+	// The schema package reports an inconsistent schema, such as a one-of discriminator that is also
+	// a field of one of the options, by panicking while the scope is assembled. That is a mistake in
+	// the workflow, so it must be returned as an error.
+	defer func() {
+		if r := recover(); r != nil {
+			result = nil
+			err = fmt.Errorf("inferred schema is invalid (%v)", r)
+		}
+	}()
 	dataType, err := Type(data, internalDataModel, functions, workflowContext)
 	if err != nil {
 		return nil, fmt.Errorf("failed to infer data type (%w)", err)
